@@ -185,4 +185,59 @@ CHECKS["C18"] = dict(
           "not a violation."),
     technique="Coq proof (invariant over all operation lists) over generated tables + hand interpreter + exact vm_compute correspondence",
     design="4/C18")
+CHECKS["C02"] = dict(
+    text=("Theorems (16 obligations): the generated tails of Predictor.mean / PredictorTime.mean give m - ln(n_obs) with normalize (ValueError "
+          "exactly when n_obs is None or 0); ExpPredictor returns exp(m) > 0 and m for logscale; for each estimator's predictor setter, over the "
+          "generated _compute_Lp/_compute_L/compute_L/_predictor_landmarks and the three dispatchers with recorded constructor arguments: full "
+          "types get a full predictor on the cells, sparse_nystroem the DTC family for any latent size, sparse_cholesky/fixed the "
+          "Cholesky-latent family with the SAME landmark factor that produced L (dispatch_matches_factor; false on the pinned tree, two fix "
+          "commits); n_obs specs; order facts; plus the MathComp identities chol_insample_exact, full_insample_error = -j w, dtc_insample_error. "
+          "~47 real fits over estimator x gp_type x landmark forms x rank forms check the identities with the PROVED bounds (never tuned)."),
+    note=("Trusted: Coq kernel; pymean/pysym/pymatrix translators; factorisation routines and constructors are uninterpreted in the dispatch "
+          "theorems (their algebra is C01/C04's); _prepare_attribute/process_inference enter as order tables."),
+    technique="Coq proof over translator-generated Gallina (mean tails, dispatch with constructor arguments) + MathComp identities + exact vm_compute correspondence + real fits",
+    design="4/C02")
+CHECKS["C08"] = dict(
+    text=("Theorems (27 obligations) over the generated world-A definitions and MathComp matrices: squared distances, distance entries, Gram "
+          "matrices, nearest-neighbour distances, ls, mu, the factor, the loss at every z and the start target are EQUAL under isometries "
+          "(orthogonal map + translation); under scaling by a>0: nn -> a nn, ls -> a ls, mle and mu shift by -d ln a, "
+          "Gram_eps(aX; a ls) = Gram_{eps/a^2}(X; ls) (the 1e-12 regulariser is absolute - stated exactly), loss_aX(z) = loss_X(z) + n ln a, "
+          "fitted values shift; affine time change with ls_time scaled leaves the time kernel unchanged and scales time derivatives by 1/a; "
+          "Gram(PX) = P Gram(X) P^T and objective/loss permutation laws. ~50 pairs of real fits on transformed data check the inference "
+          "problem tightly and the optimised values with a tolerance tied to the optimiser (support)."),
+    note=("Trusted: as C05/C03/C01. Uniqueness of the minimiser is a hypothesis of fitted_follow_permutation_partial; the list/R and MathComp "
+          "developments are not formally connected; C08 has no Coq correspondence run of its own (the tie is that of C05 and C03). KNOWN "
+          "FINDING: the DimensionalityEstimator is not scale-equivariant (poisson_term_scale shows why)."),
+    technique="Coq proof (Reals/Coquelicot + MathComp) over generated world-A definitions + real-fit pairs",
+    design="4/C08")
+CHECKS["C12"] = dict(
+    text=("Theorems (22 obligations) over a wiring table regenerated from base_predictor.py / derivatives.py / conditional.py every run: for "
+          "each of the nine classes gradient is jacrev of exactly the function obtained by calling the predictor (state coordinates, time "
+          "fixed), time_derivative is the last component of the full gradient on the merged row, hessian is jacfwd(jacrev) of the same "
+          "function, the log-determinant is the slogdet of exactly the matrix hessian returns; method resolution and shape rules "
+          "((n,d), (n,d,d), (n,); multi-column forms); under the autodiff contract the returned entries are the true first and second "
+          "partial derivatives (Coquelicot is_derive); d mean/dx* = sum_j w_j dk/dx*(x*, b_j) for every kernel expression tree (composing "
+          "C11's kgrad_correct), incl. the exp(mean) factor for positive-valued predictors; Schwarz symmetry under its premises. Execution: "
+          "nine fitted classes x kernels x 1..6 features x jit on/off against central/second finite differences of the CALLED value with "
+          "derived step and tolerance, Hessian symmetry, numpy slogdet, shapes compared exactly with the Coq shape model."),
+    note=("Trusted: Coq kernel + real-number axioms; table extractor translate/c12_wiring.py; the autodiff contract (jacrev/jacfwd are Section "
+          "hypotheses, validated on a closed-form function and by finite differences each run); slogdet uninterpreted (compared with NumPy). "
+          "PARTIAL: Hessian symmetry / second-derivative values rest on the contract + numerical support. One defect fixed in /repo "
+          "(ExpPredictor.gradient)."),
+    technique="Coq proof over AST-generated wiring tables + autodiff contract + Coquelicot derivatives + finite-difference oracle",
+    design="4/C12")
+CHECKS["C17"] = dict(
+    text=("What a theorem can carry is the wiring and the shape of the problem, not SciPy's line search. Theorems (16 obligations) over tables "
+          "regenerated from inference.py / base_model.py: optimiser dispatch and ValueError for unknown names; which result field lands in "
+          "which estimator attribute; L-BFGS-B: pre_transformation = params, losses = [fun_val], and with the L-BFGS-B contract "
+          "loss(pre_transformation) = reported <= loss(initial); Adam/ADVI traces have exactly n_iter entries for every n_iter (induction over "
+          "a loop model whose skeleton is the generated table), parameters are read after the last step, ADVI keys are the distinct loop "
+          "indices, std = exp(log_std) > 0; no unseeded randomness on the inference path (table theorem). Execution (labelled as tests): "
+          "3 optimisers x jit x gp types x n_iter grid: objective vs an independent NumPy formula, non-increase, reported loss, gradient-norm "
+          "ratio, trace prefix property, bit-identical repeats in-process and in two fresh interpreters, jit on/off agreement."),
+    note=("Trusted: Coq kernel; table extractor translate/c17_tables.py; SciPy L-BFGS-B contract. PARTIAL / RUNTIME: optimiser quality, "
+          "cross-process bit-reproducibility and jit agreement are properties of SciPy/XLA executions - tested, not proved; strict convexity is "
+          "proved for the scalar core only; jit difference after several Adam/ADVI steps is measured, not bounded."),
+    technique="Coq proof over AST-generated tables + loop-model induction + optimiser contract; runtime clauses by execution",
+    design="4/C17")
 NOT_YET = {}
